@@ -297,6 +297,15 @@ func (m *verifCModel) apply(n int, cmd string, args []string) string {
 		m.store[n][args[0]] = args[1]
 		m.log = append(m.log, verifExecRec{n, args[0], args[1]})
 		return "+OK\r\n"
+	case "getset":
+		// a write whose reply is a nil bulk when the key did not exist
+		old, ok := m.store[n][args[0]]
+		m.store[n][args[0]] = args[1]
+		m.log = append(m.log, verifExecRec{n, args[0], args[1]})
+		if ok {
+			return verifBulk(old)
+		}
+		return "$-1\r\n"
 	case "del":
 		_, ok := m.store[n][args[0]]
 		delete(m.store[n], args[0])
@@ -365,7 +374,7 @@ func (m *verifCModel) serve(c *verifNetConn, argv []string) {
 		}
 		c.reply(out)
 		return
-	case "set", "del":
+	case "set", "del", "getset":
 		m.dataCmds++
 		if !c.multi || (len(c.queued) == 0 && !c.dirty) {
 			// inside MULTI the environment moves before the first command and before EXEC (a step between two
@@ -768,4 +777,90 @@ func VerifC19ModelTxn() {
 	verifOracle(tag, done, true, failed)
 	verifCover(!failed && verifCM.mstate == 2, "model.txn.migrated")
 	verifReach("model.txn.done")
+}
+
+
+// VerifC19ModelNilReply: one node batch in which a write answered with a nil bulk (GETSET of a key that
+// does not exist yet, in a stable slot of the moving slot's source node) stands in front of / behind a
+// write to the moving slot that is answered with MOVED or ASK - blocking (Batch.Exec) and pipelined
+// (Dispatch, Receive): replies stay aligned with their commands, the redirected command is the one that
+// is retried, every command executes once at the owner of its key.
+func VerifC19ModelNilReply() {
+	c := verifNewModelCluster(true)
+	verifPrepare(c)
+	m := verifCM
+	// a key of a stable slot owned by the same node as the moving slot
+	stable := ""
+	for i := 0; i < 64 && stable == ""; i++ {
+		k := "s" + verifItoa(int64(i))
+		if sl := int(hash(k)); sl != m.mslot && m.rangeOwner(sl) == m.src {
+			stable = k
+		}
+	}
+	if stable == "" {
+		verifUnsupported("no stable key on the source node among s0..s63")
+	}
+	if verifChoose("stable-exists", 2) == 1 {
+		m.store[m.src][stable] = "old"
+	}
+	nilCmd := verifPut{stable, "n1"}
+	mv := verifPut{verifMKeys[0], "v1"}
+	order := verifChoose("order", 3) // nil reply first / last / on both sides of the redirected command
+	var cmds []string
+	var puts []verifPut
+	add := func(cmd string, p verifPut) { cmds = append(cmds, cmd); puts = append(puts, p) }
+	switch order {
+	case 0:
+		add("getset", nilCmd)
+		add("set", mv)
+	case 1:
+		add("set", mv)
+		add("getset", nilCmd)
+	default:
+		add("getset", nilCmd)
+		add("set", mv)
+		add("getset", verifPut{stable, "n2"})
+	}
+	pipelined := verifChoose("pipelined", 2) == 1
+	failed := false
+	bat := c.NewBatcher(pipelined)
+	for i, p := range puts {
+		if err := bat.Put(cmds[i], []byte(p.key), []byte(p.val)); err != nil {
+			failed = true
+		}
+	}
+	var replies []interface{}
+	var err error
+	if pipelined {
+		if err = bat.Dispatch(); err == nil {
+			verifSettle()
+			replies, err = bat.(interface {
+				Receive() ([]interface{}, error)
+			}).Receive()
+		}
+	} else {
+		replies, err = bat.Exec()
+	}
+	if err != nil {
+		failed = true
+	}
+	verifSettle()
+	if !failed {
+		verifAssert(len(replies) == len(puts), "C19.model.nil-reply.reply-count")
+	}
+	verifOracle("nil-reply", puts, false, failed)
+	// no command reached a node more often than its redirects explain: every command applied exactly once
+	if !failed {
+		for _, p := range puts {
+			n := 0
+			for _, r := range m.log {
+				if r.key == p.key && r.val == p.val {
+					n++
+				}
+			}
+			verifAssert(n == 1, "C19.model.nil-reply.command-applied-once")
+		}
+	}
+	verifCover(!failed && m.mstate >= 1, "model.nil-reply.redirected")
+	verifReach("model.nil-reply.done")
 }
